@@ -155,8 +155,16 @@ SpecialDoc(i) ==
                 usr == [name |-> "user", ext |-> FALSE, rels |-> <<>>]
             IN [header |-> "module", schema |-> "", module |-> "m",
                 types |-> CASE i = 164 -> <<usr, ext, decl>> [] i = 165 -> <<usr, decl, ext>> [] i = 166 -> <<ext, usr, decl>> [] OTHER -> <<decl, usr, ext>>, conds |-> <<>>]
+       [] i \in 168..175 ->      \* parenthesised groups nested 11 to 32 deep, to the left or to the right, the three operators taking turns
+            LET depth == <<11, 13, 20, 32>>[((i - 168) % 4) + 1]
+                left == (i - 168) \div 4 = 0
+                RECURSIVE nest(_)
+                nest(d) == IF d = 0 THEN leaf(0)
+                           ELSE LET op == <<"union", "inter", "diff">>[(d % 3) + 1]
+                                IN [k |-> op, ch |-> IF left THEN <<nest(d - 1), leaf(d)>> ELSE <<leaf(d), nest(d - 1)>>]
+            IN base(<< rel("p", [k |-> "this"], <<Ty("doc")>>), rel("x", nest(depth), <<>>), rel("a", [k |-> "this"], <<Ty("user")>>), rel("b", [k |-> "this"], <<Ty("user")>>) >>, <<>>, FALSE)
        [] OTHER -> wide(i - 4)
-NumSpecial == 4 + 160 + 4
+NumSpecial == 4 + 160 + 4 + 8
 
 (***************************************************************************)
 (* C09: the catalogue of structural violations, D -> D' at a site          *)
